@@ -93,6 +93,13 @@ def parseEv (l : String) : Option (List Ev × String × Bool) :=
       | "work", [a, b, c] => match lt a 4, lt b 1000000, lt c 1000000 with
         | some a, some b, some c => loc (.work a b c) | _, _, _ => none
       | "spawn", [u] => (lt u 65).bind fun u => if u = 0 then none else syn (.spawn t u)
+      | "call", u :: ks => match lt u 65, ks.mapM (fun k => lt k 512) with
+        | some u, some ks => if u = 0 || ks.length = 0 || ks.length > 2 then none else
+            some ([.spawn t u, .arg t u (ks.map (fun k => (⟨t, k⟩ : Obj)))], op, true)
+        | _, _ => none
+      | "rdarg", [i] => (lt i 8).bind fun i => syn (.rdarg t i)
+      | "wthrow", [m] => (lt m 16).bind fun m =>
+          some ([.lock t m, .loc t (.exn (.tryCatch (.throw 1) [] (.stmt 999)))], op, true)
       | "join", [u] => (lt u 65).bind fun u => if u = 0 then none else syn (.join t u)
       | "lock", [m] => (lt m 16).bind fun m => syn (.lock t m)
       | "enter", [m] => (lt m 16).bind fun m => syn (.lock t m)
@@ -121,6 +128,8 @@ def main (args : List String) : IO Unit := do
   let mut nBlocked := 0
   let mut nRace := 0
   let mut nNotIso := 0
+  let mut nNotIsoN := 0
+  let mut nArgUnsafe := 0
   for l in lines do
     if Driver.isSkippable l then continue
     if l.startsWith "M " then
@@ -131,16 +140,29 @@ def main (args : List String) : IO Unit := do
     | none => IO.println "O bad-op"
     | some (es, name, sync) =>
       -- the events of the line in order, while each ends `ok` (`newthr` = allocate, then bind); the last outcome is shown
+      -- (`call` = spawn, then the argument tuple; `wthrow` = lock, then the exception: the first outcome is shown)
       let mut o : Out := .ok
-      let mut shownDone := es.isEmpty
+      let mut first : Option Out := none
+      let shownDone := es.isEmpty
+      -- `call` names own objects of the caller that exist
+      let argsOk := match es with
+        | [.spawn _ _, .arg t' _ os] => os.all (fun ob => (g.thr t').used.contains ob.k)
+        | _ => true
+      if !argsOk then
+        o := .bad
+        first := some .bad
       for e in es do
-        if o matches .ok then
+        if (o matches .ok) || (o matches .spawned) || (o matches .acquired) then
           if raceEv cfg g e then nRace := nRace + 1
           if !isolatedEv cfg g e then nNotIso := nNotIso + 1
+          if !isolatedEvN cfg g e then nNotIsoN := nNotIsoN + 1
+          if !argSafeEv g e then nArgUnsafe := nArgUnsafe + 1
           let (g', o') := step cfg g e
           g := g'
           o := o'
+          if first.isNone then first := some o'
           tr := tr.push (e, o')
+      if name == "call" || name == "wthrow" then o := first.getD o
       if sync then nSync := nSync + 1 else nLocal := nLocal + 1
       if notExecuted o then nBlocked := nBlocked + 1
       let shown := if shownDone then "done" else if free && sync then "sync" else o.show
@@ -157,4 +179,4 @@ def main (args : List String) : IO Unit := do
       if inside t m trl > 1 || inside t m trl < 0 then exclOK := false
   -- races: steps at which a collection walks the thread-local table of a live thread (a data race in C);
   -- not-isolated: steps outside the hypothesis `Isolated` of C13_noninterference
-  IO.println s!"S events={idx} local={nLocal} sync={nSync} not-executed={nBlocked} noUB={noUB trl} exclusion={exclOK} races={nRace} not-isolated={nNotIso} managed={g.wraps.length}"
+  IO.println s!"S events={idx} local={nLocal} sync={nSync} not-executed={nBlocked} noUB={noUB trl} exclusion={exclOK} races={nRace} not-isolated={nNotIso} walk-decides={nNotIsoN} arg-unsafe={nArgUnsafe} managed={g.wraps.length}"
